@@ -58,7 +58,7 @@ def run(ctx):
                   'pending_commit_snapshot': r'^self\.pending_commit$', 'signer': r'^self\.signer$'}, 'self'), floor=6)
     ctx.check('SNAPSHOT-COMPLETENESS', 'Snapshot -> Group',
               lambda P_: struct_map(P_, 'Group::from_snapshot', 'mls_rs::group::Group', {
-                  'config': r'^config$', 'cipher_suite_provider': r'cipher_suite_provider\(', 'state_repo': r'^GroupStateRepository::new\(snapshot\.state\.context\.group_id',
+                  'config': r'^config$', 'cipher_suite_provider': r'cipher_suite_provider\(', 'state_repo': r'^GroupStateRepository::new\(snapshot\.state\.context\.group_id' if cfg != 'B' else r'^GroupStateRepository::new\(',
                   'state': r'^RawGroupState::import\(snapshot\.state', 'epoch_secrets': r'^snapshot\.epoch_secrets$', 'private_tree': r'^snapshot\.private_tree$',
                   'key_schedule': r'^snapshot\.key_schedule$', 'pending_updates': r'^snapshot\.pending_updates$',
                   'pending_commit': r'^snapshot\.pending_commit_snapshot$', 'previous_psk': r'^Option::None', 'signer': r'^snapshot\.signer$'},
@@ -88,13 +88,15 @@ def run(ctx):
             if f not in saved and f not in not_persisted:
                 r.bad('unsaved-field:' + f, 'Group.%s is member state that Group::snapshot does not save: it is lost on reload' % f, where=[fn['loc']])
         return r
-    ctx.check('SNAPSHOT-COMPLETENESS', 'every Group field is saved or reasoned', group_fields_saved, floor=10)
+    ctx.check('SNAPSHOT-COMPLETENESS', 'every Group field is saved or reasoned', group_fields_saved, floor=10 if cfg != 'B' else 8)
     ctx.check('SNAPSHOT-COMPLETENESS', 'GroupState -> RawGroupState',
               lambda P_: struct_map(P_, 'RawGroupState::export', 'RawGroupState', {
                   'context': r'^state\.context$', 'proposals': r'^state\.proposals\.proposals$', 'own_proposals': r'^state\.proposals\.own_proposals$',
-                  'public_tree': r'^state\.public_tree$', 'interim_transcript_hash': r'^state\.interim_transcript_hash$',
+                  'public_tree': r'^state\.public_tree$' if cfg != 'D' else r'^tree$|public_tree', 'interim_transcript_hash': r'^state\.interim_transcript_hash$',
                   'pending_reinit': r'^state\.pending_reinit$', 'confirmation_tag': r'^state\.confirmation_tag$'}, 'state'),
               floor=5, configs=['A', 'C', 'D'])
+    ctx.check('WIRE', 'without a tree index, export copies the nodes of the group tree',
+              lambda P_: _export_nodes(P_), floor=1, configs=['D'])
     ctx.check('SNAPSHOT-COMPLETENESS', 'RawGroupState -> GroupState',
               lambda P_: struct_map(P_, 'RawGroupState::import', 'mls_rs::group::state::GroupState', {
                   'proposals': r'^ProposalCache::import\(.*self\.proposals.*self\.own_proposals|^ProposalCache::import\(', 'context': r'^self\.context$',
@@ -144,9 +146,9 @@ def run(ctx):
             if not (re.search(r'data: MlsEncode::mls_encode_to_vec\(group_snapshot\)', args[1]) and
                     re.search(r'id: group_snapshot\.state\.context\.group_id', args[1])):
                 r.bad('snapshot-arg', 'the stored group state is built from `%s`, expected the encoded snapshot and its group id' % args[1][:200], where=[body.ln(bi)])
-            if not re.search(r'self\.pending_commit\.inserts', args[2]):
+            if cfg != 'B' and not re.search(r'self\.pending_commit\.inserts', args[2]):
                 r.bad('inserts-arg', 'the epoch inserts handed to storage are `%s`, expected all pending inserts' % args[2][:200], where=[body.ln(bi)])
-            if not re.search(r'self\.pending_commit\.updates', args[3]):
+            if cfg != 'B' and not re.search(r'self\.pending_commit\.updates', args[3]):
                 r.bad('updates-arg', 'the epoch updates handed to storage are `%s`, expected all pending updates' % args[3][:200], where=[body.ln(bi)])
         if len(ws) != 1:
             r.bad('write-count', 'write_to_storage performs %d storage writes, expected exactly one (snapshot + epochs in one step)' % len(ws))
@@ -170,3 +172,16 @@ def run(ctx):
                   % [body.ln(b) for b in body.err_blocks], where=[body.ln(b) for b in body.err_blocks])
         return r
     ctx.check('ATOMIC-STORE', 'in-memory: no error exit between mutations', no_err_between, floor=1)
+
+
+def _export_nodes(P):
+    from ..core.rules import assigns
+    r = Res()
+    a = assigns(P, 'RawGroupState::export', r'\.nodes$')
+    for bi, ln, ps, src in a:
+        r.site('%s = %s' % (ps, src))
+        if not re.search(r'^state\.public_tree\.nodes$', src):
+            r.bad('nodes', 'the exported tree nodes are `%s`, expected state.public_tree.nodes' % src, where=[ln])
+    if not a:
+        r.bad('nodes-missing', 'RawGroupState::export no longer copies the tree nodes')
+    return r
